@@ -108,14 +108,16 @@ theorem sim_bump {σ : Sh} {s t : St} (hR : StR σ s t) (e : Nat) {g : Frame →
     (hg : ∀ f, (g f).store = f.store ∧ (g f).outer = f.outer ∧ (g f).depth = f.depth ∧
       (g f).cacheKey = f.cacheKey ∧ (g f).function = f.function)
     (hc : ∀ fs ft : Frame, fs.getMiss = ft.getMiss ∧ fs.cantCache = ft.cantCache ∧ fs.numSet = ft.numSet →
-      (g fs).getMiss = (g ft).getMiss ∧ (g fs).cantCache = (g ft).cantCache ∧ (g fs).numSet = (g ft).numSet) :
+      (g fs).getMiss = (g ft).getMiss ∧ (g fs).cantCache = (g ft).cantCache ∧ (g fs).numSet = (g ft).numSet)
+    (hl : ∀ f, (g f).localFunc = f.localFunc := by intro f; rfl) :
     SimAt σ (modifyFrame (sh σ e) g) (modifyFrame e g) s t (fun _ _ => True) := by
   refine sim_modifyFrame hR e ?_
   intro fs ft hte hfr
   obtain ⟨a1, a2, a3, a4, a5⟩ := hg fs
   obtain ⟨b1, b2, b3, b4, b5⟩ := hg ft
   refine ⟨⟨by rw [a1, b1]; exact hfr.store, by rw [a2, b2]; exact hfr.outer, by rw [a3, b3]; exact hfr.depth,
-    by rw [a4, b4]; exact hfr.cacheKey, by rw [a5, b5]; exact hfr.function, fun h => hc fs ft (hfr.counters h)⟩, ?_⟩
+    by rw [a4, b4]; exact hfr.cacheKey, by rw [a5, b5]; exact hfr.function, fun h => hc fs ft (hfr.counters h),
+    by rw [hl fs, hl ft]; exact hfr.localFunc⟩, ?_⟩
   have := hR.dec e ft hte
   exact ⟨by rw [b2]; exact this.1, by rw [b1]; exact this.2⟩
 
@@ -266,7 +268,7 @@ theorem isFuncObj_ren (σ : Sh) (o : Obj) : isFuncObj (ren σ o) = isFuncObj o :
 /-- storing `r` under `name` in related frames -/
 theorem frameR_setStore {σ : Sh} {i : Nat} {fs ft : Frame} (h : FrameR σ i fs ft) (name : String) (v : Obj) :
     FrameR σ i { fs with store := setStore fs.store name (ren σ v) } { ft with store := setStore ft.store name v } :=
-  ⟨by simp only; rw [h.store, setStore_ren], h.outer, h.depth, h.cacheKey, h.function, h.counters⟩
+  ⟨by simp only; rw [h.store, setStore_ren], h.outer, h.depth, h.cacheKey, h.function, h.counters, h.localFunc⟩
 
 theorem frameDec_setStore {i : Nat} {ft : Frame} (h : FrameDec i ft) (name : String) {v : Obj}
     (hv : ∀ e n, v = Obj.ref e n → e < i) : FrameDec i { ft with store := setStore ft.store name v } := by
@@ -375,7 +377,7 @@ theorem sim_makeRef {σ : Sh} {s t : St} (hR : StR σ s t) (orig : Nat) (name : 
 
 theorem frameR_delStore {σ : Sh} {i : Nat} {fs ft : Frame} (h : FrameR σ i fs ft) (name : String) :
     FrameR σ i { fs with store := delStore fs.store name } { ft with store := delStore ft.store name } :=
-  ⟨by simp only; rw [h.store, delStore_ren], h.outer, h.depth, h.cacheKey, h.function, h.counters⟩
+  ⟨by simp only; rw [h.store, delStore_ren], h.outer, h.depth, h.cacheKey, h.function, h.counters, h.localFunc⟩
 
 theorem frameDec_delStore {i : Nat} {ft : Frame} (h : FrameDec i ft) (name : String) :
     FrameDec i { ft with store := delStore ft.store name } :=
@@ -508,14 +510,16 @@ theorem sim_storeSet {σ : Sh} {s t : St} (hR : StR σ s t) (e : Nat) (name : St
     (hg : ∀ f, (g f).store = setStore f.store name v ∧ (g f).outer = f.outer ∧ (g f).depth = f.depth ∧
       (g f).cacheKey = f.cacheKey ∧ (g f).function = f.function ∧ (g f).getMiss = f.getMiss ∧
       (g f).cantCache = f.cantCache)
-    (hn : ∀ fs ft : Frame, fs.depth = ft.depth → fs.numSet = ft.numSet → (g' fs).numSet = (g ft).numSet) :
+    (hn : ∀ fs ft : Frame, fs.depth = ft.depth → fs.numSet = ft.numSet → (g' fs).numSet = (g ft).numSet)
+    (hl : ∀ fs ft : Frame, fs.depth = ft.depth → fs.localFunc = ft.localFunc → (g' fs).localFunc = (g ft).localFunc := by
+      intro fs ft h1 h2; simp only [noteLocal, h1, h2, isFuncObj_ren]) :
     SimAt σ (modifyFrame (sh σ e) g') (modifyFrame e g) s t (fun _ _ => True) := by
   refine sim_modifyFrame hR e ?_
   intro fs ft hte hfr
   obtain ⟨a1, a2, a3, a4, a5, a6, a7⟩ := hg' fs
   obtain ⟨b1, b2, b3, b4, b5, b6, b7⟩ := hg ft
   refine ⟨⟨by rw [a1, b1, hfr.store, setStore_ren], by rw [a2, b2]; exact hfr.outer, by rw [a3, b3]; exact hfr.depth,
-    by rw [a4, b4]; exact hfr.cacheKey, by rw [a5, b5]; exact hfr.function, ?_⟩, ?_⟩
+    by rw [a4, b4]; exact hfr.cacheKey, by rw [a5, b5]; exact hfr.function, ?_, hl fs ft hfr.depth hfr.localFunc⟩, ?_⟩
   · intro h
     obtain ⟨h1, h2, h3⟩ := hfr.counters h
     exact ⟨by rw [a6, b6]; exact h1, by rw [a7, b7]; exact h2, hn fs ft hfr.depth h3⟩
@@ -694,7 +698,7 @@ theorem sim_envDelete_go {σ : Sh} (name : String) :
       rw [hd]
       split
       · exact ⟨hfr.store, hfr.outer, hfr.depth, hfr.cacheKey, hfr.function,
-          fun h => ⟨(hfr.counters h).1, (hfr.counters h).2.1, by simp [(hfr.counters h).2.2]⟩⟩
+          fun h => ⟨(hfr.counters h).1, (hfr.counters h).2.1, by simp [(hfr.counters h).2.2]⟩, hfr.localFunc⟩
       · exact hfr
     have hdec2 : FrameDec e (if (ft.depth == 0) = true then { ft with numSet := ft.numSet + 1 } else ft) := by
       have := hR.dec e ft hte
